@@ -8,8 +8,8 @@ from checks import callcommon, ctxcommon
 from framework import Case
 
 PROP = "C08"
-GENERATED = ['ErrorTable', 'OpSemantics', 'DtypeTables', 'Core', 'SrcErrors', 'SrcExpand', 'Wrapper', 'HintLoop', 'Decorate', 'Classes', 'ShapeLoop', 'SrcHints', 'SrcDecorate', 'Resolve', 'SrcSurface', 'SrcConstants']  # generated files this check's tie depends on
-LEAN_MODULES = ["Properties.C08", "Properties.C08b", "Properties.Core", "Properties.Prov.Errors", "Properties.Prov.Expand", "Properties.CoreWrap", "Properties.CoreHints", "Properties.CoreDecorate", "Properties.CoreClasses", "Properties.CoreShape", "Properties.Prov.Hints", "Properties.Prov.Decorate", "Properties.CoreResolve", "Properties.Prov.Surface", "Properties.Prov.Constants"]
+GENERATED = ['ErrorTable', 'OpSemantics', 'DtypeTables', 'Core', 'SrcErrors', 'SrcExpand', 'Wrapper', 'HintLoop', 'Decorate', 'Classes', 'ShapeLoop', 'SrcHints', 'SrcDecorate', 'Resolve', 'SrcSurface', 'SrcConstants', 'Errors']  # generated files this check's tie depends on
+LEAN_MODULES = ["Properties.C08", "Properties.C08b", "Properties.Core", "Properties.Prov.Errors", "Properties.Prov.Expand", "Properties.CoreWrap", "Properties.CoreHints", "Properties.CoreDecorate", "Properties.CoreClasses", "Properties.CoreShape", "Properties.Prov.Hints", "Properties.Prov.Decorate", "Properties.CoreResolve", "Properties.Prov.Surface", "Properties.Prov.Constants", "Properties.CoreErrors"]
 RULE = (
     "corpus; seeded contexts built conforming and then given exactly one perturbation (one axis resized, an axis added or dropped, dtype "
     "changed, value replaced by None / a non-array) plus multi-fault contexts (2 perturbations) and contexts whose expressions divide by a "
